@@ -14,4 +14,7 @@ def run(rep):
     fw.standin(rep, 'recog.py', ['run', 'tree', rep.seed, 2500 if q else 30000],
                'precedence/associativity: real ANTLR parse + visitor vs independent reader of prolog.g4',
                'grammar-derived and corrupted programs; operator trees of every clause body compared')
+    fw.standin(rep, 's_ctl.py', ['run', rep.seed, 500 if q else 8000],
+               'control constructs in clauses with plain distinct head variables (no enclosing loop), nested in conditions and under negation',
+               'systematic nested-condition trees + random F2 trees')
     rep.notes.append('the visitor mapping and the ANTLR precedence are bounded-checked against the independent reader (A-EXT-ANTLR)')
